@@ -19,6 +19,16 @@ struct TLogger : LoggerBase
 };
 // destruction is OBSERVED through an IR hook on the deleting destructor (the member-wise tear-down is not the subject)
 extern "C" void vh_destroy(TLogger* l) { if (g_destroyed < 4) g_destroyed_ids[g_destroyed] = l->id; g_destroyed++; }
+// logger objects come from a typed static pool (rt/vrt.c VLL_NEW_HOOK)
+union TL { TLogger t; TL() {} ~TL() {} };
+static TL g_pool0, g_pool1, g_pool2, g_pool3; static uint32_t g_pool_n;
+extern "C" void* vh_new(uint64_t n)
+{
+  if (n != sizeof(TLogger) || g_pool_n >= 4) return nullptr;
+  uint32_t k = g_pool_n++;
+  return k == 0 ? static_cast<void*>(&g_pool0) : k == 1 ? static_cast<void*>(&g_pool1) : k == 2 ? static_cast<void*>(&g_pool2) : static_cast<void*>(&g_pool3);
+}
+extern "C" int vh_owns(void* p) { return p == &g_pool0 || p == &g_pool1 || p == &g_pool2 || p == &g_pool3; }
 union MSlot { LoggerManager m; MSlot() {} ~MSlot() {} };
 static MSlot g_m;
 static char const* const NAMES[3] = {"a", "b", "c"};
@@ -33,12 +43,16 @@ static bool sorted_unique(LoggerManager& m)
 extern "C" void h_registry()
 {
   LoggerManager& m = g_m.m;
-  new (&m._loggers) std::vector<std::unique_ptr<LoggerBase>>(); m._loggers.reserve(4);
+  // static storage for the registry vector (concrete addresses; never reallocated within the bound)
+  new (&m._loggers) std::vector<std::unique_ptr<LoggerBase>>();
+  static LoggerBase* slots[6];
+  m._loggers._M_impl._M_start = reinterpret_cast<std::unique_ptr<LoggerBase>*>(slots); m._loggers._M_impl._M_finish = m._loggers._M_impl._M_start;
+  m._loggers._M_impl._M_end_of_storage = m._loggers._M_impl._M_start + 6;
   new (&m._env_log_level) std::unique_ptr<LogLevel>();
   new (&m._spinlock) Spinlock();
   *reinterpret_cast<bool*>(&m._has_invalidated_loggers) = false;
   PatternFormatterOptions opts{"%(message)", "%H", Timezone::GmtTime};
-  uint64_t i1 = vnd_range(0, 2), i2 = vnd_range(0, 2);
+  uint64_t const i1 = I1, i2 = I2;        // names concrete per query (symbolic names make every string comparison and insert position symbolic: out of memory)
   std::string n1{NAMES[i1]}, n2{NAMES[i2]};
   // creating / looking up by name is idempotent
   LoggerBase* a = m.create_or_get_logger<TLogger>(n1, {}, opts, ClockSourceType::System, nullptr);
@@ -50,7 +64,7 @@ extern "C" void h_registry()
   VASSERT(m._loggers.size() == g_created);
   VASSERT(sorted_unique(m));
   VASSERT(m.get_logger(n1) == a && m.get_logger(n2) == b);
-  uint64_t i3 = vnd_range(0, 2); std::string n3{NAMES[i3]};
+  uint64_t const i3 = I3; std::string n3{NAMES[i3]};
   VASSERT((m.get_logger(n3) != nullptr) == (i3 == i1 || i3 == i2));
   // remove one of them: it disappears from look-ups at once, but is destroyed only by the backend clean-up, and only when
   // the backend reports that nothing queued or buffered refers to it any more
